@@ -151,19 +151,17 @@ def matches(c, atom):
 
 
 def ret_variant(body, path):
-    """Variant of the io::Result written to _0 along the path (last write wins)."""
-    r = None
-    for bid in path:
-        for s in body.blocks[bid]["stmts"]:
-            if s["k"] == "assign" and s["lhs"]["l"] == 0 and not s["lhs"]["proj"]:
-                rv = s["rhs"]
-                if rv["k"] == "agg" and norm(rv.get("adt") or "").endswith("result::Result"):
-                    r = rv["variant"]
-        t = body.blocks[bid]["term"]
-        if t["k"] == "call" and t["dest"]["l"] == 0 and not t["dest"]["proj"]:
-            c = norm(t.get("callee") or "")
-            r = "Err" if c.endswith("FromResidual>::from_residual") else "call:" + c
-    return r
+    """Variant of the io::Result the function returns along the path: "Ok" / "Err" when it was built as such (directly or
+    in a helper whose result is handed on), "Err" for `?`'s from_residual, "call:<callee>" when it is another call's result."""
+    from analysis.table import value_on_path
+    v = value_on_path(body, path, 0)
+    if v is None:
+        return None
+    if v[0] == "agg" and v[1].endswith("result::Result"):
+        return v[2]
+    if v[0] == "call":
+        return "Err" if v[1].endswith("FromResidual>::from_residual") else "call:" + v[1]
+    return None
 
 
 def table_rule(run, f):
